@@ -464,3 +464,71 @@ def inline_class_constants(fn: ast.FunctionDef, cls_node: ast.ClassDef, class_na
     fn = T().visit(copy.deepcopy(fn))
     ast.fix_missing_locations(fn)
     return fn
+
+
+def split_tuple_assign(fn: ast.FunctionDef) -> ast.FunctionDef:
+    """`a, b = (x, y)` with plain names on the left that the right side does not read -> `a = x; b = y`"""
+    fn = copy.deepcopy(fn)
+
+    def block(stmts):
+        out = []
+        for st in stmts:
+            for fld in ('body', 'orelse', 'finalbody'):
+                lst = getattr(st, fld, None)
+                if isinstance(lst, list) and lst and isinstance(lst[0], ast.stmt) and not isinstance(st, (ast.FunctionDef, ast.ClassDef)):
+                    setattr(st, fld, block(lst))
+            if isinstance(st, ast.Try):
+                for h in st.handlers:
+                    h.body = block(h.body)
+            if isinstance(st, ast.Assign) and len(st.targets) == 1 and isinstance(st.targets[0], ast.Tuple) and \
+                    isinstance(st.value, ast.Tuple) and len(st.targets[0].elts) == len(st.value.elts) and \
+                    all(isinstance(t, ast.Name) for t in st.targets[0].elts) and \
+                    not ({t.id for t in st.targets[0].elts} & _reads(st.value)):
+                for t, v in zip(st.targets[0].elts, st.value.elts):
+                    out.append(ast.copy_location(ast.Assign(targets=[t], value=v), st))
+                continue
+            out.append(st)
+        return out
+    fn.body = block(fn.body)
+    ast.fix_missing_locations(fn)
+    return fn
+
+
+def coalesce_copies(fn: ast.FunctionDef) -> ast.FunctionDef:
+    """`X = Y` where X is bound nowhere else and Y is a local introduced by inlining (name__iN): Y is renamed to X and the copy
+    dropped (the helper's variable IS the caller's variable)"""
+    fn = copy.deepcopy(fn)
+    for _ in range(8):
+        stores = {}
+        for n in ast.walk(fn):
+            if isinstance(n, ast.Name) and isinstance(n.ctx, ast.Store):
+                stores[n.id] = stores.get(n.id, 0) + 1
+        cand = None
+        for n in ast.walk(fn):
+            if isinstance(n, ast.Assign) and len(n.targets) == 1 and isinstance(n.targets[0], ast.Name) and isinstance(n.value, ast.Name) \
+                    and '__i' in n.value.id and stores.get(n.targets[0].id) == 1 and n.targets[0].id != n.value.id:
+                cand = n
+                break
+        if cand is None:
+            break
+        x, y = cand.targets[0].id, cand.value.id
+
+        class R(ast.NodeTransformer):
+            def visit_Name(self, node):
+                if node.id == y:
+                    node.id = x
+                return node
+
+            def visit_Assign(self, node):
+                if node is cand:
+                    return None
+                self.generic_visit(node)
+                return node
+        fn = R().visit(fn)
+        for n in ast.walk(fn):
+            for fld in ('body', 'orelse', 'finalbody'):
+                lst = getattr(n, fld, None)
+                if isinstance(lst, list) and fld == 'body' and not lst and isinstance(n, (ast.If, ast.For, ast.While, ast.With, ast.FunctionDef)):
+                    n.body = [ast.Pass()]
+    ast.fix_missing_locations(fn)
+    return fn
